@@ -187,6 +187,14 @@ pub fn run_case(prop: &str, sub: u64, histories: usize, scratch: &Path, acc: &mu
         // the command line documents that --stop-on-nonmatch overrides -U
         case.cfg.multi_line = false;
     }
+    if rng.chance(1, 16) {
+        // byte-order-mark sniffing switched off (-E none) and an input that starts with the
+        // bytes of a mark: they are ordinary content on every route
+        case.cfg.encoding = Some("none".into());
+        let mark: &[u8] = [&b"\xEF\xBB\xBF"[..], &b"\xFF\xFE"[..], &b"\xFE\xFF"[..]][rng.below(3)];
+        case.data = [mark, &case.data[..]].concat();
+        acc.faults.inc("mark-bytes-with-sniffing-off");
+    }
     if build_matcher(&case).is_err() {
         acc.probes.inc("matcher-rejected-pattern");
         return;
